@@ -113,6 +113,13 @@ def injections(rng, toks, defs, tier):
         out.append(("included-at-depth-2-file-%s" % nm, None, {"main.circom": top2, "mid1.circom": mid % ("lib_bad.circom", 1), "lib_bad.circom": lib}, ["main.circom"]))
         out.append(("included-at-depth-3-file-%s" % nm, None, {"main.circom": top2, "mid1.circom": mid % ("mid2.circom", 1), "mid2.circom": mid % ("lib_bad.circom", 2),
                                                                "lib_bad.circom": lib}, ["main.circom"]))
+    # … and when a file that is only included includes a file that does not exist (review of b4f5d8c: the error is located in the file that is
+    # not named, the definitions of the missing file are missing from the analysis of the named one)
+    mid = "pragma circom 2.0.0;\ninclude \"%s\";\ntemplate Mid%d() { signal input a; signal output b; b <== a; }\n"
+    top2 = base_plain.replace(";\n", ";\ninclude \"mid1.circom\";\n", 1)
+    out.append(("missing-file-included-at-depth-2", None, {"main.circom": top2, "mid1.circom": mid % ("nosuch.circom", 1)}, ["main.circom"]))
+    out.append(("missing-file-included-at-depth-3", None, {"main.circom": top2, "mid1.circom": mid % ("mid2.circom", 1), "mid2.circom": mid % ("sub/nosuch.circom", 2)},
+                ["main.circom"]))
     for nm, lib in (("syntax", lib_syntax), ("collision", lib_collision)):
         out.append(("named-and-included-%s-lib-first" % nm, None, {"main.circom": top, "lib_bad.circom": lib}, ["lib_bad.circom", "main.circom"]))
         out.append(("named-and-included-%s-lib-last" % nm, None, {"main.circom": top, "lib_bad.circom": lib}, ["main.circom", "lib_bad.circom"]))
